@@ -79,16 +79,22 @@ def run_scenarios(ck, sc, site_of=None):
     # one internal witness shifted, every evaluated-output row downstream recomputed
     # (generic propagation in the harness); the property demands that no such
     # assignment is ACCEPTED with other returned values
-    nsweep = 10 if ck.tier == "quick" else 48
+    nsweep = 10 if ck.tier == "quick" else 16
+    eligible = [s for s in sc if s["expect"]["res"] == "ok" and s["expect"]["ret"] and "prove_ops" not in s]
+    # thorough: the full sweep on an evenly spaced subset of at most ~400 scenarios (measured: sweeping
+    # all of several thousand scenarios with 48 variants each does not finish in hours)
+    stride = max(1, len(eligible) // 400) if ck.tier != "quick" else 1
+    swept = set(id(s) for s in eligible[::stride])
     lines = []
     for s in sc:
         rec = {k: s[k] for k in ("id", "ops", "prove_ops") if k in s}
         # (not for calls that merely ALLOCATE what they return: `append_point` constrains
         # nothing, its coordinates are the caller's free witnesses)
         last_op = s["ops"][-1].get("op") if s["ops"] else ""
-        if (s["expect"]["res"] == "ok" and s["expect"]["ret"] and "prove_ops" not in s
+        if (s["expect"]["res"] == "ok" and s["expect"]["ret"] and "prove_ops" not in s and id(s) in swept
                 and last_op not in ("append_point", "point", "witness")):
-            rec["sweep"] = {"max": nsweep}
+            # (the quick tier's every-width slice: two variants each; the listed widths get the full sweep)
+            rec["sweep"] = {"max": 2 if s.get("every") else nsweep}
         lines.append(json.dumps(rec))
     # four harness processes side by side (each prove is itself multi-threaded)
     import concurrent.futures
